@@ -1,6 +1,7 @@
 import Astits.Driver.C02
 import Astits.Driver.C06
 import Astits.Driver.DemuxProps
+import Astits.Driver.MuxProps
 import Astits.Driver.C10
 import Astits.Driver.C11
 import Astits.Driver.C12
@@ -26,6 +27,10 @@ def main (args : List String) : IO UInt32 := do
       | "C18r" => some (DriverDemux.runC18r t)
       | "C19" => some (DriverDemux.runC19 t)
       | "C20" => some (DriverDemux.runC20 t)
+      | "C01" => some (DriverMux.runC01 t)
+      | "C04" => some (DriverMux.runC04 t)
+      | "C05" => some (DriverMux.runC05 t)
+      | "C17" => some (DriverMux.runC17 t)
       | "C10" => some (DriverC10.run t)
       | "C11" => some (DriverC11.run t)
       | "C12" => some (DriverC12.run t)
